@@ -802,3 +802,235 @@ theorem tick_qw2 (P : Prog) (c d : Cfg) (h : QW2 c d) (hinv : InvP c) (hI : Inv 
       exact loopHead_sim P (fuel0 - 1) (fuel0 - 1) _ _ (Nat.le_refl _) (by unfold fuel0; omega)
         (mid_of_end he2 hm.ncc (by intro x hx; rw [hpd] at hx; cases hx))
         (wake_invP _ _ _ _ (hwinv.same ⟨rfl, rfl, rfl, rfl⟩)) hD
+
+/-! ### histories -/
+
+/-- a position at which the third partial theorem admits a wake-up request: every position at which the stepping task is not
+suspended on a pause future (quiet, or between an interrupting pause request and the next tick), and those of `wakeOk` -/
+def wakeOk3 (g : Bool) (c : Cfg) : Bool := !heldPc c || g || pendingWait c
+
+def evAllowed3 (g : Bool) (c : Cfg) (e : Ev) : Bool :=
+  match e with
+  | .tick | .pause | .play => true
+  | e => isWake e && wakeOk3 g c
+
+def nextG3 (g : Bool) (c : Cfg) (e : Ev) : Bool :=
+  match e with
+  | .tick => if heldPc c then !runsBody c && g else (waitInterrupted c && heldB (rearm c))
+  | .pause | .play => g
+  | _ => if heldPc c then true else g
+
+def admissible3 (P : Prog) : Bool → Cfg → List Ev → Bool
+  | _, _, [] => true
+  | g, c, e :: es => evAllowed3 g c e && admissible3 P (nextG3 g c e) (step P c e).1 es
+
+/-- image of one event in the reference history: as `evImage2`, and the tick at which the stepping task re-arms an interrupted
+wait and is then held by the pause is dropped (the reference run resumes the wait when the other run is released) -/
+def evImage3 (g : Bool) (c : Cfg) : Ev → List Ev
+  | .pause => []
+  | .play => []
+  | .tick =>
+      if heldPc c then (if g && runsBody c then [.tick] else [])
+      else if waitInterrupted c && heldB (rearm c) then [] else [.tick]
+  | e => [e]
+
+def unpaused3 (P : Prog) : Bool → Cfg → List Ev → List Ev
+  | _, _, [] => []
+  | g, c, e :: es => evImage3 g c e ++ unpaused3 P (nextG3 g c e) (step P c e).1 es
+
+def Sim3 (P : Prog) (g : Bool) (c d : Cfg) : Prop :=
+  (g = true ∧ LagW c d) ∨ ((g = false ∨ heldPc c = false) ∧ (InStep c d ∨ QW2 c d ∨ Lag P c d))
+
+theorem Sim.to3 {P : Prog} {c d : Cfg} (h : Sim P c d) : InStep c d ∨ QW2 c d ∨ Lag P c d := by
+  rcases h with h | h | h
+  · exact Or.inl h
+  · exact Or.inr (Or.inl (qw_to_qw2 h))
+  · exact Or.inr (Or.inr h)
+
+theorem inStep_not_held {c d : Cfg} (h : InStep c d) : heldPc c = false ∧ waitInterrupted c = false := by
+  constructor
+  · have := h.pc
+    cases hpc : c.pc with
+    | awaitPaused pf => rw [hpc] at this; exact absurd this (by simp [PcRelAt])
+    | _ => simp [heldPc, hpc, isAwaitPaused]
+  · unfold waitInterrupted
+    split
+    · rename_i fn wf wk aw hst
+      obtain ⟨wf', w, _, _, hcw, _, hni⟩ := h.core.st.waiting_inv hst
+      rw [hcw]
+      cases w <;> first | rfl | exact absurd rfl (hni _)
+    · rfl
+
+theorem qw2_not_held {c d : Cfg} (h : QW2 c d) : heldPc c = false ∧ waitInterrupted c = true := by
+  obtain ⟨fn, wf, aw, wk, k, hst, hw, hpc, _⟩ := h.shape
+  exact ⟨by simp [heldPc, hpc, isAwaitPaused], by simp only [waitInterrupted, hst, hw]⟩
+
+theorem lag_held {P : Prog} {c d : Cfg} (h : Lag P c d) : heldPc c = true := h.1
+
+theorem wake_evImage3 (c : Cfg) (e : Ev) (h : isWake e = true) (g : Bool) : evImage3 g c e = [e] := by
+  cases e <;> first | rfl | cases h
+theorem wake_nextG3 (c : Cfg) (e : Ev) (h : isWake e = true) (g : Bool) : nextG3 g c e = if heldPc c then true else g := by
+  cases e <;> first | rfl | cases h
+theorem evAllowed3_wake (g : Bool) (c : Cfg) (e : Ev) (ha : evAllowed3 g c e = true)
+    (h1 : e ≠ .tick) (h2 : e ≠ .pause) (h3 : e ≠ .play) : isWake e = true ∧ wakeOk3 g c = true := by
+  cases e with
+  | tick => exact absurd rfl h1
+  | pause => exact absurd rfl h2
+  | play => exact absurd rfl h3
+  | _ => simpa [evAllowed3] using ha
+
+theorem fuelOkN_tick (P : Prog) (n : Nat) (d : Cfg) (h : fuelOkN P n d [.tick] = true) : tickDoneN P n d = true := by
+  simpa [fuelOkN] using h
+
+theorem fuel0_pred_le : fuel0 - 1 ≤ fuel0 := by unfold fuel0; omega
+
+/-- one wake-up request and its image (third class) -/
+theorem wake_sim3 (P : Prog) (g : Bool) (c d : Cfg) (e : Ev) (h : Sim3 P g c d) (hinv : InvP c) (hI : Inv c)
+    (hw : isWake e = true) (hok : wakeOk3 g c = true) :
+    Sim3 P (nextG3 g c e) (step P c e).1 (step P d e).1 := by
+  rw [wake_nextG3 c e hw g]
+  rcases h with ⟨hg, hl⟩ | ⟨hc, hs⟩
+  · have hh : heldPc c = true := hl.pc
+    rw [if_pos hh]
+    exact Or.inl ⟨rfl, wake_lagW P c d e hw hl⟩
+  · have hpc' : heldPc (step P c e).1 = heldPc c := by simp only [heldPc]; rw [wake_pc P c e hw]
+    rcases hs with hs | hs | hs
+    · obtain ⟨hh, hwi⟩ := inStep_not_held hs
+      rw [if_neg (by rw [hh]; simp)]
+      have hq : quiet c = true := by
+        simp only [heldPc] at hh
+        simp [quiet, hh, hwi]
+      have := step_sim P c d e (Or.inl hs) hinv hI (wake_evAllowed c e hw hq)
+        (by rw [(wake_evImage c e hw g).2]; simp [fuelOk]; cases e <;> first | rfl | cases hw)
+      rw [(wake_evImage c e hw g).2] at this
+      exact Or.inr ⟨Or.inr (by rw [hpc']; exact hh), this.to3⟩
+    · obtain ⟨hh, _⟩ := qw2_not_held hs
+      rw [if_neg (by rw [hh]; simp)]
+      exact Or.inr ⟨Or.inr (by rw [hpc']; exact hh), Or.inr (Or.inl (wake_qw2 P c d e hw hs))⟩
+    · have hh := lag_held hs
+      rw [if_pos hh]
+      have hg : g = false := by
+        rcases hc with hc | hc
+        · exact hc
+        · rw [hh] at hc; cases hc
+      subst hg
+      have hpw : pendingWait c = true := by simpa [wakeOk3, hh] using hok
+      obtain ⟨fn, wf, wk, aw, hst, hwp⟩ := pendingWait_spec c hpw
+      exact Or.inl ⟨rfl, wake_lagW P c d e hw (lag_to_lagW P c d hs hI fn wf wk aw hst hwp)⟩
+
+/-- one event of the history with pauses and its image in the reference history (third class) -/
+theorem step_sim3 (P : Prog) (g : Bool) (c d : Cfg) (e : Ev) (h : Sim3 P g c d) (hinv : InvP c) (hI : Inv c)
+    (ha : evAllowed3 g c e = true) (hf : fuelOkN P (fuel0 - 1) d (evImage3 g c e) = true) :
+    Sim3 P (nextG3 g c e) (step P c e).1 (run P d (evImage3 g c e)) := by
+  by_cases h1 : e = .tick
+  · subst h1
+    rcases h with ⟨hg, hl⟩ | ⟨hc, hs⟩
+    · have hh : heldPc c = true := hl.pc
+      subst hg
+      by_cases hr : runsBody c = true
+      · have him : evImage3 true c .tick = [.tick] := by simp [evImage3, hh, hr]
+        rw [him] at hf ⊢
+        have hD : tickDone P d = true := by
+          rw [← tickDoneN_fuel0]; exact tickDoneN_le P _ _ fuel0_pred_le d (fuelOkN_tick P _ d hf)
+        have hng : nextG3 true c .tick = false := by simp [nextG3, hh, hr]
+        rw [hng]
+        exact Or.inr ⟨Or.inl rfl, ((tick_lagW P c d hl hinv).2 hr hD).sim.to3⟩
+      · have hrf : runsBody c = false := by simpa using hr
+        have him : evImage3 true c .tick = [] := by simp [evImage3, hh, hrf]
+        have hng : nextG3 true c .tick = true := by simp [nextG3, hh, hrf]
+        rw [him, hng]
+        exact Or.inl ⟨rfl, (tick_lagW P c d hl hinv).1 hrf⟩
+    · rcases hs with hs | hs | hs
+      · obtain ⟨hh, hwi⟩ := inStep_not_held hs
+        have him : evImage3 g c .tick = [.tick] := by simp [evImage3, hh, hwi]
+        have hng : nextG3 g c .tick = false := by simp [nextG3, hh, hwi]
+        rw [him] at hf ⊢
+        rw [hng]
+        have hD : tickDone P d = true := by
+          rw [← tickDoneN_fuel0]; exact tickDoneN_le P _ _ fuel0_pred_le d (fuelOkN_tick P _ d hf)
+        exact Or.inr ⟨Or.inl rfl, (tick_inStep P c d hs hinv hD).sim.to3⟩
+      · obtain ⟨hh, hwi⟩ := qw2_not_held hs
+        by_cases hb : heldB (rearm c) = true
+        · have him : evImage3 g c .tick = [] := by simp [evImage3, hh, hwi, hb]
+          have hng : nextG3 g c .tick = true := by simp [nextG3, hh, hwi, hb]
+          rw [him, hng]
+          exact Or.inl ⟨rfl, (tick_qw2 P c d hs hinv hI).1 hb⟩
+        · have hbf : heldB (rearm c) = false := by simpa using hb
+          have him : evImage3 g c .tick = [.tick] := by simp [evImage3, hh, hwi, hbf]
+          have hng : nextG3 g c .tick = false := by simp [nextG3, hh, hwi, hbf]
+          rw [him] at hf ⊢
+          rw [hng]
+          exact Or.inr ⟨Or.inl rfl, ((tick_qw2 P c d hs hinv hI).2 hbf (fuelOkN_tick P _ d hf)).sim.to3⟩
+      · have hh := lag_held hs
+        have hg : g = false := by
+          rcases hc with hc | hc
+          · exact hc
+          · rw [hh] at hc; cases hc
+        subst hg
+        have him : evImage3 false c .tick = [] := by simp [evImage3, hh]
+        have hng : nextG3 false c .tick = false := by simp [nextG3, hh]
+        rw [him, hng]
+        exact Or.inr ⟨Or.inl rfl, (tick_lag P c d hs hinv hI).sim.to3⟩
+  · by_cases h2 : e = .pause
+    · subst h2
+      show Sim3 P g (pause c).1 d
+      rcases h with ⟨hg, hl⟩ | ⟨hc, hs⟩
+      · exact Or.inl ⟨hg, pause_lagW c d hl⟩
+      · have hk : c.killing = none := by
+          rcases hs with hs | hs | hs
+          · exact hs.core.ckill
+          · exact hs.stepping.2.2.1
+          · exact (Sim.ckill (P := P) (Or.inr (Or.inr hs)))
+        refine Or.inr ⟨by simp only [heldPc] at hc ⊢; rw [pause_pc c hk]; exact hc, ?_⟩
+        rcases hs with hs | hs | hs
+        · exact (pause_sim P c d (Or.inl hs)).to3
+        · exact Or.inr (Or.inl (pause_qw2 c d hs))
+        · exact (pause_sim P c d (Or.inr (Or.inr hs))).to3
+    · by_cases h3 : e = .play
+      · subst h3
+        show Sim3 P g (play c).1 d
+        rcases h with ⟨hg, hl⟩ | ⟨hc, hs⟩
+        · exact Or.inl ⟨hg, play_lagW c d hl⟩
+        · refine Or.inr ⟨by simp only [heldPc] at hc ⊢; rw [(play_shape c).1.2.2.2]; exact hc, ?_⟩
+          rcases hs with hs | hs | hs
+          · exact (play_sim P c d (Or.inl hs)).to3
+          · exact Or.inr (Or.inl (play_qw2 c d hs))
+          · exact (play_sim P c d (Or.inr (Or.inr hs))).to3
+      · obtain ⟨hw, hok⟩ := evAllowed3_wake g c e ha h1 h2 h3
+        rw [wake_evImage3 c e hw g]
+        exact wake_sim3 P g c d e h hinv hI hw hok
+
+/-- **simulation over whole histories (third class)** -/
+theorem run_sim3 (P : Prog) : ∀ (evs : List Ev) (g : Bool) (c d : Cfg), Sim3 P g c d → InvP c → Inv c →
+    admissible3 P g c evs = true → fuelOkN P (fuel0 - 1) d (unpaused3 P g c evs) = true →
+    ∃ g', Sim3 P g' (run P c evs) (run P d (unpaused3 P g c evs)) := by
+  intro evs
+  induction evs with
+  | nil => intro g c d h _ _ _ _; exact ⟨g, h⟩
+  | cons e es ih =>
+    intro g c d h hinv hI ha hf
+    simp only [admissible3, Bool.and_eq_true] at ha
+    simp only [unpaused3, fuelOkN_append, Bool.and_eq_true] at hf
+    rw [show run P c (e :: es) = run P (step P c e).1 es from rfl]
+    simp only [unpaused3, run_append]
+    exact ih _ _ _ (step_sim3 P g c d e h hinv hI ha.1 hf.1) (step_invP P c e hinv) (step_inv P c e hI) ha.2 hf.2
+
+theorem sim3_init (P : Prog) (nf : Nat) : Sim3 P false (init nf) (init nf) := Or.inr ⟨Or.inl rfl, (sim_init P nf).to3⟩
+
+theorem Sim3.of_terminal {P : Prog} {g : Bool} {c d : Cfg} (h : Sim3 P g c d) (ht : terminal c.st.label = true) :
+    d.st = c.st ∧ sh d = sh c := by
+  rcases h with ⟨_, hl⟩ | ⟨_, hs | hs | hs⟩
+  · exact (Sim2.of_terminal (P := P) (Or.inl ⟨rfl, hl⟩)) ht
+  · exact (Sim.of_terminal (P := P) (Or.inl hs)) ht
+  · obtain ⟨fn, wf, aw, wk, k, hst, _⟩ := hs.shape
+    rw [hst] at ht; simp [SObj.label, PMF.terminal, allowed] at ht
+  · exact (Sim.of_terminal (P := P) (Or.inr (Or.inr hs))) ht
+
+theorem Sim3.never_ahead {P : Prog} {g : Bool} {c d : Cfg} (h : Sim3 P g c d) : TraceExt c d := by
+  rcases h with ⟨_, hl⟩ | ⟨_, hs | hs | hs⟩
+  · exact (Sim2.never_ahead (P := P) (Or.inl ⟨rfl, hl⟩))
+  · exact (Sim.never_ahead (P := P) (Or.inl hs))
+  · have h1 := (sh_fields hs.view.core.sh).2.2.2.2.2.2.2.2.2.2.2.1
+    have h2 := (sh_fields (unint_same c).1).2.2.2.2.2.2.2.2.2.2.2.1
+    exact TraceExt.of_eq (by rw [← h1, h2])
+  · exact (Sim.never_ahead (P := P) (Or.inr (Or.inr hs)))
